@@ -272,6 +272,21 @@ def run(chk):
         chk.ob("C18-D5.threads", fn.key, "worker threads are joined", bool(joins), fn.where)
     chk.floor("C18-D1.lockset", nacc + nl, 20, "accesses to shared worker bookkeeping")
 
+    # ------------------------------------------------------------------ D6 (shared with C17-D8)
+    chk.rule("C18-D6.flush", "no sample is handed out twice: every evaluation of the candidates callback is preceded by load_complete(), so finished samples that still sit in the "
+                             "temporary store are in the grid (and excluded) before new candidates are computed (obligations of C17-D8)")
+    from rules import c17
+    from tsg.report import Check
+    sub = Check("C17", chk.tier, chk.seed)
+    c17.run(sub)
+    chk.absorb(sub)
+    n6 = 0
+    for o in sub.obls:
+        if o["rule"] == "C17-D8.flush":
+            n6 += 1
+            chk.ob("C18-D6.flush", o["function"], o["construct"], o["ok"], o["where"], o["detail"], o["expected"])
+    chk.floor("C18-D6.flush", n6, 4, "evaluations of the candidates callback")
+
     return ("Static rule discharge (R-LOCKSET on AST scopes, who-may-call for lambdas touching guarded data, branch-edge dominance for the unsigned budget difference, pairing of the "
             "running counter with the running list, join/notify presence) over constructCommon<true,*>, the threaded loadNeededValues and CandidateManager. "
             "Deadlock freedom, lost wake-ups and exactly-once over all schedules are properties of interleavings and are not decided; these are necessary structural conditions.")
